@@ -24,6 +24,9 @@ RULES = {
     'C10.e': 'no input-controlled recursion: a dispatcher arm that re-enters the request entry with text taken from the request '
              'first refuses text that starts with a command word whose own arm re-enters (a wrapper wraps exactly one command), '
              'so the depth of the handler stack does not depend on what a client sends',
+    'C10.f': 'no unbounded recursion in node code: every cycle of the call graph (closures included) is either the request re-entry '
+             '(bounded by C10.e), or a counted self-recursion (the recursive call passes `n - c` for an integer parameter n, under n > 0), '
+             'anything else can be driven to stack exhaustion — which aborts the whole process — by the input that controls its depth',
 }
 
 NOT_THE_NODE = ('nundb::client::', 'nundb::command_line::', '<nundb::client::')   # client library and CLI tool
@@ -607,6 +610,7 @@ SIDE_CONDITIONS = {
 def run(ck, m):
     _run(ck, m)
     reentry_rule(ck, m)
+    recursion_rule(ck, m)
 
 
 def _run(ck, m):
@@ -1013,3 +1017,72 @@ def reentry_rule(ck, m):
                   'the request entry applies %s to its text before parsing, the nested-wrapper guard tests the text without it: a wrapped '
                   '" rp 1 …" (leading blank) passes the guard and is parsed as another wrapper on re-entry — the client again chooses the '
                   'recursion depth' % extra, eb.loc(x))
+
+
+def recursion_rule(ck, m):
+    """C10.f — see RULES"""
+    P = m.prog
+    G = {}
+    for b in P.user_bodies():
+        if b.id.startswith(('nundb::client::', 'nundb::command_line::')):
+            continue
+        G.setdefault(b.id, set())
+        for bi, t in b.calls():
+            c = callee(t)
+            if c in P.bodies and not c.startswith(('nundb::client::', 'nundb::command_line::')):
+                G[b.id].add(c)
+        for s_ in (s for bl in b.blocks for s in bl['s']):
+            if s_['k'] == 'assign' and s_['r']['k'] == 'agg' and s_['r'].get('ak') == 'closure' and s_['r'].get('def') in P.bodies:
+                G[b.id].add(s_['r']['def'])
+    pr = m.reentry_names()
+    d, _sw = m.dispatcher()
+    ncyc = 0
+    for comp in tarjan({k: set(v) for k, v in G.items()}):
+        if not (len(comp) > 1 or comp[0] in G.get(comp[0], ())):
+            continue
+        ncyc += 1
+        comp = sorted(comp)
+        names = [short(x) for x in comp]
+        if set(comp) & set(pr) and all(x in pr or x == d.id or x.startswith(d.id + '::') for x in comp):
+            ck.ob('C10.f', 'call-graph', 'cycle:%s' % '|'.join(names), True,
+                  'the request entry re-enters itself through the wrapper arm; its depth is bounded by C10.e', '')
+            continue
+        ok, why = False, ''
+        if len(comp) == 1:
+            b = P.bodies[comp[0]]
+            rec = [bi for bi, t in b.calls() if callee(t) == b.id]
+            ok = bool(rec)
+            for bi in rec:
+                t = b.term(bi)
+                counted = False
+                for ai, a in enumerate(t['args']):
+                    if ai + 1 > b.argc or not b.locals[ai + 1].startswith(('i', 'u')) or b.locals[ai + 1] in ('str',):
+                        continue
+                    for r in origins(b, a):
+                        if r[0] != 'arith':
+                            continue
+                        rv = b.blocks[r[1]]['s'][r[2]]['r']
+                        if not rv.get('op', '').startswith('Sub'):
+                            continue
+                        from_param = any(r2[0] == 'param' and r2[1] == ai + 1 for r2 in origins(b, rv['a']))
+                        dec = [const_val(r2) for r2 in origins(b, rv['b'])]
+                        if not (from_param and len(dec) == 1 and isinstance(dec[0], int) and dec[0] > 0):
+                            continue
+                        # guarded by param > 0 (or >= 1)
+                        for bl_i, bl in enumerate(b.blocks):
+                            for s in bl['s']:
+                                if s['k'] == 'assign' and s['r']['k'] == 'bin' and s['r']['op'] in ('Gt', 'Ge') and \
+                                        any(r3[0] == 'param' and r3[1] == ai + 1 for r3 in origins(b, s['r']['a'])):
+                                    lim = [const_val(r3) for r3 in origins(b, s['r']['b'])]
+                                    if len(lim) == 1 and isinstance(lim[0], int) and lim[0] >= (0 if s['r']['op'] == 'Gt' else 1):
+                                        for (_s2, tt, ft) in core.bool_switches(b, local=s['l']['l']):
+                                            if b.dominates(tt, bi) and not b.dominates(ft, bi):
+                                                counted = True
+                if not counted:
+                    ok = False
+            why = 'counted self-recursion: every recursive call passes a parameter minus a positive constant under `parameter > 0`'
+        ck.ob('C10.f', 'call-graph', 'cycle:%s' % '|'.join(names), ok, why if ok else
+              'recursion cycle %s with no bound on its depth that this rule recognises (a counter that is decremented under a > 0 test): the '
+              'depth follows the input that drives it (a version that cannot grow, the stars of a pattern, …); exhausting the stack of a '
+              'handler thread aborts the whole process, for every client' % names, '%s:%s' % (P.bodies[comp[0]].file, P.bodies[comp[0]].line))
+    ck.floor('C10.f', ncyc, 1, 'cycles of the call graph (the request re-entry is one)')
